@@ -195,6 +195,17 @@ func (server *Server) setupServe() {
 		return server.ctx
 	}
 
+	// HTTP/2 connections are served by HTTP2Server.ServeConn directly, which
+	// only knows its own IdleTimeout. Inherit the HTTP/1.1 server's setting the
+	// way http2.ConfigureServer does, so idle HTTP/2 connections are closed too.
+	if server.HTTP2Server.IdleTimeout == 0 {
+		if server.HTTPServer.IdleTimeout != 0 {
+			server.HTTP2Server.IdleTimeout = server.HTTPServer.IdleTimeout
+		} else {
+			server.HTTP2Server.IdleTimeout = server.HTTPServer.ReadTimeout
+		}
+	}
+
 	// start HTTP/1.1 server
 	if server.http1ConnChannelListener == nil {
 		// HTTP/1.1 connections reach net/http wrapped in hack.TLSClientHelloConn,
